@@ -5,6 +5,7 @@ import (
 	"flag"
 	"fmt"
 	"os"
+	"runtime/pprof"
 	"sort"
 	"sync"
 	"sync/atomic"
@@ -330,7 +331,14 @@ func Main(args []string) {
 	fs := flag.NewFlagSet("C10", flag.ExitOnError)
 	replay := fs.String("replay", "", "replay file")
 	lOverride := fs.Int("L", 0, "override the bound of the main run")
+	prof := fs.String("cpuprofile", "", "write a CPU profile")
 	fs.Parse(args)
+	if *prof != "" {
+		if pf, err := os.Create(*prof); err == nil {
+			pprof.StartCPUProfile(pf)
+			defer pprof.StopCPUProfile()
+		}
+	}
 	env, err := NewEnv()
 	if err != nil {
 		fmt.Fprintln(os.Stderr, "harness error:", err)
@@ -403,6 +411,7 @@ func Main(args []string) {
 		fmt.Fprintln(os.Stderr, "harness error: cannot write evidence:", err)
 		os.Exit(2)
 	}
+	pprof.StopCPUProfile()
 	fmt.Printf("C10: cases=%d states=%d transitions=%d operations=%d exhaustive=%v violations=%d wall=%.1fs\n", st.sequences, st.distinctStates(), st.edges, st.opsApplied, exhaustive, rep.Viol, time.Since(start).Seconds())
 	if len(st.harnessErrs) > 0 && rep.Viol == 0 {
 		os.Exit(2)
